@@ -96,13 +96,34 @@ def is_engine_exc(e):
     return _is_cf(e)
 
 
+_CHAIN = list(range(0, 17)) + list(range(-1, -9, -1)) + list(range(17, 65))
+
+
 def realize(x):
-    """crosshair.realize when running under the engine, identity otherwise."""
+    """Concretise a selector.
+
+    Under the engine a symbolic int/bool is decoded with an if-chain (`x == v`), which yields exactly one path per
+    feasible value; crosshair.realize (model value + fork on `x != v`) was measured to multiply the number of paths
+    by ~1.5 per realised variable. Anything else falls back to crosshair.realize. Identity outside the engine.
+    """
     try:
-        from crosshair import realize as r
-        return r(x)
+        from crosshair import NoTracing, realize as ch_realize
+        from crosshair.libimpl.builtinslib import SymbolicInt, SymbolicBool
+        from crosshair.tracers import is_tracing
     except ImportError:
         return x
+    if not is_tracing():
+        return x
+    with NoTracing():
+        is_bool = isinstance(x, SymbolicBool)
+        is_int = isinstance(x, SymbolicInt)
+    if is_bool:
+        return True if x else False
+    if is_int:
+        for v in _CHAIN:
+            if x == v:
+                return v
+    return ch_realize(x)
 
 
 def deep_realize(x):
